@@ -339,7 +339,9 @@ def step (s : State) : Op → State × Out
   | .edgeCount => (s, .nat (edgeCount s))
   | .toIndex n => (s, match IMap.indexOf? s.nodes n with | some i => .nat i | none => .panic)
   | .fromIndex i => (s, match s.nodes[i]? with | some e => .nat e.1 | none => .panic)
-  | .edgeToIndex a b => (s, match IMap.indexOf? s.edges (a, b) with | some i => .nat i | none => .panic)
+  -- `EdgeIndexable::to_index((a, b))`: `get_index_of(&Self::edge_key(a, b)).expect("edge not found")`
+  | .edgeToIndex a b =>
+    (s, match IMap.indexOf? s.edges (edgeKey s.directed a b) with | some i => .nat i | none => .panic)
   | .edgeFromIndex i => (s, match s.edges[i]? with | some e => .pair e.1.1 e.1.2 | none => .panic)
   | .intoGraph => let g := intoGraph s; (s, .graph g.1 g.2)
   | .isAdjacent a b => (s, .bool (containsEdge s a b))
